@@ -8,6 +8,7 @@ Decided are the structural conditions without which lines are lost, split or cor
               size, lines recorded <= line table) are re-established at every exit (interval + difference-bound
               analysis with the window base as offset 0 and the invariants assumed at entry)
  RF-idx-loff  every index into the line-offset table is < MAX_NLINES (caller argument ranges)
+ RF-noloss    prchunk_fill reports failure only with an empty window (end of input) or because one line does not fit the window
  RF11-read    a failed or empty read() never moves the fill cursor
  RF-pair      every byte class the reader overwrites in place ('\\n' -> NUL, '\\r' -> NUL) is restored or re-emitted by
               each stream consumer on its copy-through path
@@ -63,7 +64,8 @@ def check_window(P, R):
         if x.get("k") == "Var" and fn.tu.types[x["t"]].get("ptr") and "char" in fn.tu.types[x["t"]]["c"]:
             ptrs.add(x["d"])
     entry = {bufk: (0, 0), (ctx["d"], "bno"): (0, maplen), (ctx["d"], "off"): (0, maplen),
-             (ctx["d"], "tot_lno"): (0, maxl), (ctx["d"], "cur_lno"): (0, maxl)}
+             (ctx["d"], "tot_lno"): (0, maxl), (ctx["d"], "cur_lno"): (0, maxl),
+             ("rel", (ctx["d"], "off"), (ctx["d"], "bno")): 0}          # consumed offset <= bytes in the window
     iv = Intervals(fn, entry=entry, ptr_keys=ptrs, call_ranges={"read": (-1, None)})
     iv.zero_keys = {bufk}
 
@@ -176,7 +178,48 @@ def check_window(P, R):
                 else:
                     R.finding(rule, fn, "exit invariant %s" % nm, "at a successful return %s has range %s, the invariant %s <= %d is not "
                               "re-established" % (nm, v, nm, lim), r)
+    # ... and consumed offset <= bytes in the window
+    for r in fn.walk():
+        if r.get("k") != "ReturnStmt":
+            continue
+        rv = const_of(kids(r)[0]) if kids(r) else None
+        if rv is not None and rv < 0:
+            continue
+        for st in iv.states_at(r) or []:
+            nsite += 1
+            c = iv.rel(st, (ctx["d"], "off"), (ctx["d"], "bno"))
+            if c is not None and c <= 0:
+                R.ob(rule, "exit invariant: consumed offset <= bytes in the window", True)
+            else:
+                R.finding(rule, fn, "exit invariant off <= bno", "at a successful return the consumed offset is not known to be <= the bytes "
+                          "in the window (difference bound %s)" % c, r)
     R.floor(rule, "window accesses and invariants", nsite, 8)
+    # ---- no line is lost: failure is reported only with an empty window, or because one line does not fit the window
+    rule4 = "RF-noloss"
+    nfail = 0
+    for r in fn.walk():
+        if r.get("k") != "ReturnStmt" or not kids(r):
+            continue
+        rv = const_of(kids(r)[0])
+        if rv is None or rv >= 0:
+            continue
+        sts = iv.states_at(r) or []
+        if not sts:
+            R.ob(rule4, "failing return at line %s is unreachable under the window invariants" % r.get("l"), True)
+            continue
+        nfail += 1
+        gs = [norm_cond(g["cond"], g["pol"]) for g in guards_of(fn, r) if "pol" in g]
+        too_long = any(op == ">" and b == str(maplen) for op, a, b in gs)
+        empty = all(st.get((ctx["d"], "bno")) == (0, 0) for st in sts)
+        if empty:
+            R.ob(rule4, "failure (end of input) reported only with an empty window", True)
+        elif too_long:
+            R.ob(rule4, "failure reported because a single line does not fit the window", True)
+        else:
+            worst = [st.get((ctx["d"], "bno")) for st in sts if st.get((ctx["d"], "bno")) != (0, 0)][0]
+            R.finding(rule4, fn, "failing return with data", "prchunk_fill reports failure although the window may still hold bytes "
+                      "(bytes in the window: %s): the lines in it are lost" % (worst,), r)
+    R.floor(rule4, "failing returns", nfail, 2)
     # ---- line table indices in prchunk_fill: argument of set_loff / set_lftermd < MAX_NLINES
     rule2 = "RF-idx-loff"
     n2 = 0
